@@ -129,3 +129,13 @@ package dsstate
 //@   ensures [answers-for-the-cids-key] err == nil ==> (res <==> haskey(dstore, keyOf(st, c)))
 //@   ensures [an-error-is-not-a-yes] err != nil ==> !res
 //@   modifies nothing
+
+// ---- C01/C14: the snapshot form: every entry is written with its key relative to the namespace (Unmarshal puts the
+// reader's namespace back in front of it) and with the stored bytes as they are ----
+//@ extern codec.Encoder.Encode(v)
+//@   modifies nothing
+//@ func (st *State) Marshal
+//@   property C01 C14 C08
+//@   at_call codec.Encoder.Encode assert [key-relative-to-the-namespace] raw_v.Key == k.BaseNamespace() && raw_v.Value == r.Value
+//@   loop 1 (range results.Next())
+//@   modifies nothing
